@@ -269,6 +269,29 @@ def run(ctx):
                     program.append(["concat-left", list(sel)])
             else:
                 fields = SOURCES[fname]
+                if fname in ("sam", "fastq", "fasta2") and state and r.random() < 0.35:
+                    # the other way of replacing a field: a sequence function applied to the table replaces its sequence column
+                    seqcol = {"sam": 9, "fastq": 1, "fasta2": 1}[fname]
+                    def cur_seq(i_, ov_):
+                        if seqcol in ov_:
+                            return ov_[seqcol]
+                        raw_ = raws[i_]
+                        return raw_.split(eol)[1] if fname in ("fastq", "fasta2") else raw_[:-len(eol)].split("\t")[seqcol] if raw_.endswith(eol) else raw_.split("\t")[seqcol]
+                    comp_ = {"A": "T", "C": "G", "G": "C", "T": "A", "N": "N", "a": "t", "c": "g", "g": "c", "t": "a", "n": "n"}
+                    if fname != "sam" or any(set(cur_seq(i_, ov_)) - set(comp_) for i_, ov_ in state):
+                        continue
+                    try:
+                        t = bnp.sequence.get_reverse_complement(t)
+                    except Exception as e:
+                        if not originates_in_library(e):
+                            raise
+                        ctx.observe("get_reverse_complement(table)-raised:%s" % type(e).__name__)
+                        return
+                    state = [(i_, {**ov_, seqcol: "".join(comp_[ch] for ch in reversed(cur_seq(i_, ov_))).upper()}) for i_, ov_ in state]
+                    replaced_any = True
+                    program.append(["reverse-complement-of-the-table"])
+                    ctx.count("sequence_function_replacements")
+                    continue
                 if not fields or not state:
                     continue
                 names = r.sample(list(fields), r.randint(1, min(2, len(fields))))
